@@ -385,7 +385,9 @@ pub fn expand_type_support(input: &DeriveInput) -> Result<TokenStream> {
                     }
                 }
             }];
-            let mut has_default = false;
+            // The `_` arm of the default variant must be the last arm of the generated `match`,
+            // wherever the default variant is declared.
+            let mut default_sample: Option<TokenStream> = None;
             let mut variant_sample_seq = Vec::new();
             let mut variant_dynamic_sample_seq = Vec::new();
 
@@ -394,9 +396,6 @@ pub fn expand_type_support(input: &DeriveInput) -> Result<TokenStream> {
                 let variant_index_unsuffixed = syn::Index::from(variant_index + 1);
                 let is_default_label = variant_attributes.is_default;
 
-                if !has_default && variant_attributes.is_default {
-                    has_default = true;
-                }
                 let case_list = if variant_attributes.case.is_empty() {
                     vec![parse_quote!(#variant_index_unsuffixed)]
                 } else {
@@ -440,11 +439,12 @@ pub fn expand_type_support(input: &DeriveInput) -> Result<TokenStream> {
                             ).expect("Must match")},
                         };
 
-                        variant_sample_seq.push(if variant_attributes.is_default {
-                            quote! {_ => #variant_sample}
+                        if variant_attributes.is_default {
+                            default_sample = Some(quote! {_ => #variant_sample});
                         } else {
-                            quote! {#first_discriminator => #variant_sample}
-                        });
+                            variant_sample_seq
+                                .push(quote! {#first_discriminator => #variant_sample});
+                        }
                         variant_dynamic_sample_seq
                             .push(quote! {Self::#variant_ident {#variant_field_name} => {
                                 data.set_value(0, <#discriminator_type as ::dust_dds::xtypes::data_storage::DataStorageMapping>::into_storage(#first_discriminator));
@@ -478,11 +478,12 @@ pub fn expand_type_support(input: &DeriveInput) -> Result<TokenStream> {
                             ).ok()?),
                         };
 
-                        variant_sample_seq.push(if variant_attributes.is_default {
-                            quote! {_ => #variant_sample}
+                        if variant_attributes.is_default {
+                            default_sample = Some(quote! {_ => #variant_sample});
                         } else {
-                            quote! {#first_discriminator => #variant_sample}
-                        });
+                            variant_sample_seq
+                                .push(quote! {#first_discriminator => #variant_sample});
+                        }
                         variant_dynamic_sample_seq
                             .push(quote! {Self::#variant_ident (a) => {
                                 data.set_value(0, <#discriminator_type as ::dust_dds::xtypes::data_storage::DataStorageMapping>::into_storage(#first_discriminator));
@@ -525,11 +526,12 @@ pub fn expand_type_support(input: &DeriveInput) -> Result<TokenStream> {
                             Self::#variant_ident,
                         };
 
-                        variant_sample_seq.push(if variant_attributes.is_default {
-                            quote! {_ => #variant_sample}
+                        if variant_attributes.is_default {
+                            default_sample = Some(quote! {_ => #variant_sample});
                         } else {
-                            quote! {#first_discriminator => #variant_sample}
-                        });
+                            variant_sample_seq
+                                .push(quote! {#first_discriminator => #variant_sample});
+                        }
                         variant_dynamic_sample_seq.push(quote! {Self::#variant_ident => {
                             data.set_value(0, <#discriminator_type as ::dust_dds::xtypes::data_storage::DataStorageMapping>::into_storage(#first_discriminator));
                         },});
@@ -543,8 +545,9 @@ pub fn expand_type_support(input: &DeriveInput) -> Result<TokenStream> {
                 }
             }
 
-            if !has_default {
-                variant_sample_seq.push(quote! {_ => return None,});
+            match default_sample {
+                Some(default_sample) => variant_sample_seq.push(default_sample),
+                None => variant_sample_seq.push(quote! {_ => return None,}),
             }
 
             let get_type_quote = quote! {
